@@ -409,6 +409,23 @@ def parse_cargo(repo):
     return feats
 
 
+def feature_closure(feats, sel):
+    """features enabled by selecting `sel` (Cargo: a feature enables the features it lists, transitively)"""
+    out, todo = [], list(sel)
+    while todo:
+        f = todo.pop(0)
+        if f in out:
+            continue
+        out.append(f)
+        todo += [x for x in feats.get(f, []) if x in feats]
+    return out
+
+
+def msg_features(feats):
+    """the message-type features: what `all_msgs` enables, minus group features (features that enable others)"""
+    return [f for f in feature_closure(feats, ["all_msgs"]) if feats.get(f) == []]
+
+
 def std_paths(repo):
     """syntactic scan for `std::` paths outside `#[cfg(feature = "std")]` items"""
     hits = []
@@ -435,6 +452,7 @@ def build_schema(repo):
         "bias_tables": parse_bias_tables(repo), "dispatch": parse_dispatch(repo), "features": parse_cargo(repo),
         "std_paths": std_paths(repo),
     }
+    schema["msg_features"] = msg_features(schema["features"])
     # resolve fragment references
     special = {"df_msg1029_utf8_str", "df_msg1059_biases", "df_msg1065_biases", "df_msg1230_biases"}
     for s in special:
